@@ -282,7 +282,10 @@ func c14MsgRate(rate, burstN, n int, idle time.Duration) (string, string, bool) 
 
 // c14RequestRate hammers websocket connects or session creations from this address for about
 // 1.2 s while being refused; what is admitted must stay within burst + rate*elapsed (+1).
-func c14RequestRate(what string, perMin, burstN int) (string, string, bool) {
+// With a pause the address hammers for 300 ms, stays silent for the pause and hammers again for
+// 300 ms (a limiter must not forget a drained address early); the bound is the token bucket's
+// over the whole time either way.
+func c14RequestRate(what string, perMin, burstN int, pause ...time.Duration) (string, string, bool) {
 	args := []string{"--ws-msgs-per-sec", "0", "--max-sessions", "0", "--max-ws-connections", "0", "--max-receivers-per-sender", "0"}
 	if what == "ws" {
 		args = append(args, "--ws-connects-per-min", fmt.Sprint(perMin), "--ws-connects-burst", fmt.Sprint(burstN), "--session-creates-per-min", "0")
@@ -309,7 +312,20 @@ func c14RequestRate(what string, perMin, burstN int) (string, string, bool) {
 			c.close()
 		}
 	}()
-	for time.Since(t0) < 1200*time.Millisecond && tried < 4000 {
+	phaseEnd := t0.Add(1200 * time.Millisecond)
+	if len(pause) > 0 {
+		phaseEnd = t0.Add(300 * time.Millisecond)
+	}
+	paused := false
+	for tried < 4000 {
+		if !time.Now().Before(phaseEnd) {
+			if len(pause) == 0 || paused {
+				break
+			}
+			paused = true
+			time.Sleep(pause[0])
+			phaseEnd = time.Now().Add(300 * time.Millisecond)
+		}
 		tried++
 		if what == "ws" {
 			role := "receiver"
@@ -449,6 +465,8 @@ func TestVerifC14Server(t *testing.T) {
 		probe{"session-creates-per-min=120 burst 2", func() (string, string, bool) { return c14RequestRate("session", 120, 2) }},
 		probe{"ws-connects-per-min=30 burst 3 (the default rate)", func() (string, string, bool) { return c14RequestRate("ws", 30, 3) }},
 		probe{"session-creates-per-min=10 burst 2 (the default rate)", func() (string, string, bool) { return c14RequestRate("session", 10, 2) }},
+		probe{"ws-connects-per-min=6 burst 2, 2.4 s pause", func() (string, string, bool) { return c14RequestRate("ws", 6, 2, 2400*time.Millisecond) }},
+		probe{"session-creates-per-min=6 burst 2, 2.4 s pause", func() (string, string, bool) { return c14RequestRate("session", 6, 2, 2400*time.Millisecond) }},
 		probe{"max-message-bytes=2000 size 1000", func() (string, string, bool) { return c14MessageSize(2000, 1000) }},
 		probe{"max-message-bytes=0 size 100000", func() (string, string, bool) { return c14MessageSize(0, 100000) }},
 		probe{"ws-msgs-per-sec=20 burst=5 n=80", func() (string, string, bool) { return c14MsgRate(20, 5, 80, 0) }},
